@@ -61,3 +61,14 @@ def relayout(arr, kind):
     if kind == 'negstride' and arr.ndim >= 1:
         return arr[::-1].copy()[::-1]
     return arr
+
+
+def layout_of(case, salt=0):
+    """memory layout for the arrays of this case: a deterministic function of the case itself (so replays use the same one)"""
+    from .core import digest
+    return LAYOUTS[(digest(case)[0] + salt) % len(LAYOUTS)]
+
+
+def L(case, arr, salt=0):
+    """``arr`` with the memory layout chosen for this case (equal values; C order, Fortran order, strided or negative-stride view)"""
+    return relayout(arr, layout_of(case, salt))
